@@ -2,7 +2,7 @@ import sys, json
 from dev_try import load
 mod, fn, N = sys.argv[1], sys.argv[2], int(sys.argv[3])
 prog = load()
-job = {'kind': 'custom', 'name': fn, 'N': N, 'cfg': 'dev', 'props': ['C11', 'C13', 'C14', 'C17'], 'size': 104}
+job = {'kind': 'custom', 'name': fn, 'N': N, 'cfg': 'dev', 'props': ['C08', 'C10', 'C11', 'C13', 'C14', 'C17'], 'size': 104}
 for kv in sys.argv[4:]:
     k, v = kv.split('='); job[k] = ([int(c) for c in v] if k == 'rset' else (int(v) if v.isdigit() else v))
 r = getattr(__import__(mod), fn)(prog, job)
